@@ -178,9 +178,10 @@ impl Snap {
             }
             out.push(0xff);
         }
-        if let Some(p) = &self.panic {
+        if self.panic.is_some() {
+            // (the message is not part of the key: which entry trips an observer first can depend on
+            // the hash order of the filesystem's own map, which differs between two replays)
             out.extend_from_slice(b"PANIC");
-            out.extend_from_slice(p.as_bytes());
         }
     }
 
